@@ -110,7 +110,9 @@ class TokenHarness:
 
     def make_exec(self):
         self.kit = LexerKit()
-        return Exec(self.kit.prog, self.kit.models, max_steps=20000 * (self.n + 2))
+        ex = Exec(self.kit.prog, self.kit.models, max_steps=20000 * (self.n + 2))
+        ex.use_inc = False       # full Unicode tables: fresh solvers on the relevant slice are much faster than one incremental solver
+        return ex
 
     def run(self, ex):
         kit = self.kit; n = self.n
@@ -289,7 +291,9 @@ class WholeHarness:
         self.f_lexed_new = self.kit.prog.methods.get(("LexedStr", None, "new"))
         if self.f_lexed_new is None:
             raise RuntimeError("LexedStr::new not found")
-        return Exec(self.kit.prog, self.kit.models, max_steps=40000 * (self.m + 2))
+        ex = Exec(self.kit.prog, self.kit.models, max_steps=40000 * (self.m + 2))
+        ex.use_inc = False
+        return ex
 
     def run(self, ex):
         kit = self.kit; m = self.m
@@ -470,7 +474,9 @@ class DiagTokenHarness(TokenHarness):
         if len(c) != 1:
             raise RuntimeError("inner_extend_token not found")
         self.f_iet = c[0]
-        return Exec(self.kit.prog, self.kit.models, max_steps=30000 * (self.n + 2))
+        ex = Exec(self.kit.prog, self.kit.models, max_steps=30000 * (self.n + 2))
+        ex.use_inc = False
+        return ex
 
     def run(self, ex):
         kit = self.kit; n = self.n
